@@ -389,6 +389,21 @@ theorem quantile_spec (cells : List (Ext Rat)) (qs : List Rat) (k : Nat) (hk : q
   rw [cellS_gen, cell_classIds _ hune (hsorted.imp le_of_lt)]
   split <;> omega
 
+/-- **quantile classes are the k percentile bands**: when the `k` percentile values numpy returned for
+    `100/k, 200/k, …, 100` are pairwise different (no band is empty of range), they *are* the bins, there are
+    exactly `k` classes, and class `i` is the band between consecutive percentiles:
+    `P(100·i/k) < x ≤ P(100·(i+1)/k)` (class 0: everything up to the first percentile).  With equal percentile
+    values (`quantile_spec`) the equal ones collapse into one band and the classes are renumbered `0 … len−1`. -/
+theorem quantile_percentile_bands (cells : List (Ext Rat)) (qs : List Rat) (k : Nat) (hk : qs.length = k) (hne : qs ≠ [])
+    (hasc : qs.Pairwise (· < ·)) :
+    Bin.quantile Gen.cpuBinShape cells qs k = .ok (cells.map (classOf qs)) qs ∧
+    ∀ (x : Rat) (i : Nat), classOf qs (.fin x) = .fin (i : Rat) ↔
+      ∃ h : i < qs.length, x ≤ qs[i] ∧ (i = 0 ∨ ∃ h' : i - 1 < qs.length, qs[i - 1] < x) := by
+  have hu := uniq_of_sorted qs hasc
+  have := (quantile_spec cells qs k hk hne).1
+  rw [hu] at this
+  exact ⟨this, fun x i => classOf_band qs (hasc.imp le_of_lt) x i⟩
+
 /-- the percentile at 100 is the maximum, so the last bin is the maximum ... -/
 theorem quantile_last_is_max (qs : List Rat) (mx : Rat) (hmem : mx ∈ qs) (hle : ∀ q ∈ qs, q ≤ mx)
     (hne : uniq qs ≠ []) : (uniq qs).getLast hne = mx := by
@@ -411,6 +426,7 @@ theorem quantile_every_finite_classified (cells : List (Ext Rat)) (qs : List Rat
   have := uniq_length qs
   exact ⟨i, by omega, h⟩
 
+example : ([1, 2, 4] : List Rat).Pairwise (· < ·) := by decide +kernel
 example : Bin.quantile Gen.cpuBinShape [.fin 0, .fin 1, .fin 2, .fin 3, .fin 4, .ninf] [1, 2, 2, 4] 4 =
     .ok [.fin 0, .fin 0, .fin 1, .fin 2, .fin 2, .nan] [1, 2, 4] := by decide +kernel
 
